@@ -1006,7 +1006,7 @@ func runE2E(c *corr.Ctx) {
 	n := 0
 	for _, sc := range []string{"play", "record", "back"} {
 		for _, pr := range []string{"udp", "tcp"} {
-			for k := 0; k < c.N(1, 6); k++ {
+			for k := 0; k < c.N(2, 6); k++ {
 				in := genE2E(c, sc, pr)
 				if k == 0 {
 					in.TamperEvery, in.TamperByte, in.TamperRTCP = 7, false, true
